@@ -212,7 +212,17 @@ enum Twin {
 /// One deflate or inflate stream driven through mz_deflate / mz_inflate with a random schedule.
 fn stream_case(tr: &mut Tr, id: &str, prop: &str, deflate_kind: bool, data: &[u8], level: i32, wbits: i32, strategy: i32,
                r: &mut StdRng) {
+    stream_case_p(tr, id, prop, deflate_kind, data, level, wbits, strategy, None, r)
+}
+
+/// `plain`: for inflate cases, the plaintext the stream is known to define (the acceptor then
+/// supplies the exact encoded length the totals must show at stream end - C06 through the C API)
+fn stream_case_p(tr: &mut Tr, id: &str, prop: &str, deflate_kind: bool, data: &[u8], level: i32, wbits: i32, strategy: i32,
+                 plain: Option<&[u8]>, r: &mut StdRng) {
     tr.case(id, prop, json!({"kind": if deflate_kind { "deflate" } else { "inflate" }, "n": data.len(), "wbits": wbits}));
+    if let Some(p) = plain {
+        tr.ev(crate::infl::stream_event(data, Some(p), wbits > 0, json!({})));
+    }
     let mut s = mz_stream::default();
     let rc = unsafe {
         if deflate_kind { mz_deflateInit2(&mut s, level, 8, wbits, 9, strategy) } else { mz_inflateInit2(&mut s, wbits) }
@@ -488,13 +498,16 @@ pub fn scn_capi(o: &Opts, tr: &mut Tr, prop: &str) {
             let mut z = vec![0u8; size * 2 + 1000];
             let res = deflate(&mut c, &data, &mut z, MZFlush::Finish);
             z.truncate(res.bytes_written);
+            let mut known = true;
             match i % 8 {
-                3 => { let k = r.gen_range(0..z.len().max(1)); z.truncate(k); }
-                5 => { if !z.is_empty() { let k = r.gen_range(0..z.len()); z[k] ^= 0x10; } }
+                3 => { let k = r.gen_range(0..z.len().max(1)); z.truncate(k); known = false; }
+                5 => { if !z.is_empty() { let k = r.gen_range(0..z.len()); z[k] ^= 0x10; } known = false; }
                 7 => { z.extend_from_slice(&[1, 2, 3]); }
+                1 => { let t: Vec<u8> = (0..r.gen_range(1..40)).map(|_| r.gen()).collect(); z.extend_from_slice(&t); }
                 _ => {}
             }
-            stream_case(tr, &format!("c-inf-{}-{}-{}", i, kind, size), prop, false, &z, 0, wbits, 0, &mut r);
+            stream_case_p(tr, &format!("c-inf-{}-{}-{}", i, kind, size), prop, false, &z, 0, wbits, 0,
+                          if known && size <= 20000 { Some(&data[..]) } else { None }, &mut r);
         }
     }
     oneshots(o, tr, prop, &mut r);
